@@ -91,3 +91,11 @@ Example c07_present_example :
   | _ => False
   end.
 Proof. vm_compute. reflexivity. Qed.
+
+(* sFlow, EVERY byte string: one message per flow / expanded flow sample of the decoded datagram, and every sample
+   occupies at least 20 bytes of it -- a sample count or a record count that claims more than the bytes hold
+   invents nothing *)
+Theorem c07_sf_none_invented : forall cfg st e tr d st' o ms,
+  sf_step cfg st e tr d = Ok (st', o, ms) -> (20 * length ms <= length d)%nat.
+Proof. exact sf_step_none_invented. Qed.
+Print Assumptions c07_sf_none_invented.
